@@ -101,7 +101,7 @@ func (s *rrSched) park(label string) {
 }
 
 var rrBaseSec = time.Date(2031, 12, 31, 23, 59, 52, 0, time.UTC) // even second (aligned with every interval used), afternoon hour, and the ticks cross midnight, month and year
-var rrBaseHour = time.Date(2031, 12, 31, 20, 0, 0, 0, time.UTC) // the same with one tick = one hour
+var rrBaseHour = time.Date(2031, 12, 31, 20, 0, 0, 0, time.UTC)  // the same with one tick = one hour
 
 // Every second case runs with hour ticks and maxAge = 1 h: the virtual intervals are then far older than
 // the maximum age while every file's modification time is fresh, so the retention scans that the
